@@ -4,6 +4,7 @@ import common, xscorr, basiccorr
 from leanio import ulp_diff
 
 LEVEL = "proof"
+ALWAYS_SEARCH = True
 LEMMA_MODULES = ["MatExp", "RateMat", "Consts", "Lotz"]
 RULE = ("eixs_mat / rrxs_mat / drxs_mat vs Xs.eiMat/recMat applied to the implementation's own vectors (bit-exact) for the visited elements at random "
         "energies / widths; Jacobian captured from basic_simulation vs Basic.rateMatrix (1e-11, exact zero pattern) incl. CNI and DR on/off; "
@@ -110,6 +111,24 @@ def stmt_simulation(z, j, e, w, cni, method, rtol, atol, rng):
     return out
 
 
+def stmt_history(z, j, e, rng):
+    """the statements of one plain run must not depend on what ran before it in the same process"""
+    import ebisim
+    el = xscorr.element(z)
+    out = []
+    for hw, hcni in ((None, True), (7.5, True), (None, False)):
+        ebisim.basic_simulation(el, j, e, 1e-7, dr_fwhm=hw, CNI=hcni)
+        N0 = np.full(z + 1, 1.0 / (z + 1))
+        res = ebisim.basic_simulation(el, j, e, 3e-3 * 100.0 / j, dr_fwhm=None, N_initial=N0.copy(), CNI=False, solver_kwargs=dict(rtol=1e-8, atol=1e-12))
+        dev = np.abs(res.N.sum(axis=0) - 1.0).max()
+        if not np.isfinite(dev) or dev > 1e-9:
+            out.append({"key": {"clause": "total_conserved_after_history", "Z": z}, "input": {"Z": z, "j": j, "E": e, "history": [hw, hcni]},
+                        "what": f"after a basic_simulation(CNI={hcni}, dr_fwhm={hw}) call, a plain run of Z={z} at E={e} no longer conserves the total abundance (drift {dev:.3e})"})
+            break
+        out += stmt_matrices(z, e, 7.5)
+    return out
+
+
 def stmt_fixed(z, j, e, w, cni):
     """simulation statements for one given parameter set (neutrals present, long enough to react)"""
     import ebisim
@@ -147,6 +166,8 @@ def search(ctx):
         if el.dr_e_res.size: es.append(float(rng.choice(el.dr_e_res)))
         for e in es:
             V += stmt_matrices(int(z), e, float(10 ** rng.uniform(-1, 2.4))); ctx.count("matrix_cases")
+    for z in ([3, 9, 19, 26] if (ctx.thorough or ctx.failures) else [int(rng.choice([3, 9, 19]))]):
+        V += stmt_history(z, 200.0, float(10 ** rng.uniform(2.5, 4)), rng); ctx.count("history_cases")
     nsim = 30 if ctx.thorough else 6
     for k in range(nsim):
         z = int(rng.choice([2, 6, 10, 18, 19, 26, 36, 54]))
@@ -162,6 +183,9 @@ def search(ctx):
 
 def replay(ctx, data):
     inp = data.get("violation", {}).get("input", {})
+    if "history" in inp:
+        r = stmt_history(int(inp["Z"]), float(inp["j"]), float(inp["E"]), np.random.default_rng(0))
+        return r[0] if r else None
     if "method" in inp:
         rng = np.random.default_rng(0)
         return None
